@@ -47,7 +47,7 @@ def _scenarios(quick, seed, workdir):
             w["direct_auxv"] = {"entry": {"file_map": min(1, len(files) - 1), "off": 0x100}}
         if mode == 3:      # a caller mapping elsewhere (suppresses nothing)
             w["user_mappings"] = [{"start": "0x10000", "size": 0x2000, "name": "/elsewhere.so", "id_hex": "01" * 16}]
-        scns.append({"id": f"mods/{k}", "target": tgt, "writer": w, "files": files})
+        scns.append({"id": f"mods/{k}", "target": tgt, "writer": w, "files": files, "want_modules": True})
     return scns
 
 
